@@ -19,6 +19,8 @@ import (
 
 type kfT struct{ *testing.T }
 
+func newServerForKF(root string) *olareg.Server { return olareg.New(baseConf(config.StoreDir, root)) }
+
 func kfPush(t *testing.T, h *olareg.Server, rn string, b []byte) string {
 	d := dig("sha256", b)
 	if r := doReq(h, "POST", "/v2/"+rn+"/blobs/uploads/?digest="+d, b, nil); r.code != 201 {
